@@ -103,6 +103,10 @@ func C16(t *rapid.T) *world.Scenario {
 	}
 	if Pct(t, "deferredlog", 10) {
 		sc.Logger = "deferred" // an asynchronous slog handler: records are resolved at the end
+	} else if Pct(t, "debuglog", 25) {
+		// a handler that formats every record at once: whatever a record refers to (directive
+		// maps, header maps) is read on the caller's goroutine while background work may run
+		sc.Logger = "debug"
 	}
 	if Pct(t, "rawkeys", 8) {
 		// Some callers write a field into the header map under a key of their own spelling
